@@ -53,6 +53,38 @@ func NewSimReader(data []byte, del []plan.Deliver) *SimReader {
 	return &SimReader{data: data, del: del, budget: 64 + 4*len(data), FaultOp: -1}
 }
 
+// RestPlain returns the data the reader has not delivered yet, and whether the
+// rest of its script is free of injected faults (no error, scribble or re-entry
+// ahead, no permanent failure behind).
+func (r *SimReader) RestPlain() ([]byte, bool) {
+	// (a reader error is reported again by later calls on the same Decoder, as
+	// encoding/json does: that is the reader's failure, not a state of the handle)
+	if r.perm || r.scribbleAll || r.Injected != nil {
+		return nil, false
+	}
+	for k := r.di; k < len(r.del); k++ {
+		d := r.del[k]
+		if (d.Err != "" && d.Err != "eof") || d.Scribble || d.Reenter {
+			return nil, false
+		}
+	}
+	if r.ended {
+		return nil, true
+	}
+	// an "eof" attached before the end of the data truncates the input
+	pos := r.pos
+	for k := r.di; k < len(r.del); k++ {
+		pos += r.del[k].N
+		if r.del[k].Err == "eof" {
+			if pos > len(r.data) {
+				pos = len(r.data)
+			}
+			return append([]byte(nil), r.data[r.pos:pos]...), true
+		}
+	}
+	return append([]byte(nil), r.data[r.pos:]...), true
+}
+
 func (r *SimReader) Read(p []byte) (n int, err error) {
 	verifsim.Yield(seamRead)
 	r.Reads++
